@@ -822,5 +822,153 @@ theorem metadata_matches_applied (es : List PriceEntry) (hwf : ∀ e ∈ es, e.b
     obtain ⟨e, t, ht, p, hp, ha, hre⟩ := (hmt.1 r).mp hr
     exact ⟨e, t, ht, p, hp, ha, hre⟩
 
+/-- Σ converted amount × 10²⁸ under `k`, computed from the metadata records alone -/
+def shownSum (records : List PriceRecord) (tgt : String) (l : List (Txn × Posting)) (k : AKey) : Int :=
+  (l.map (fun tp => if keyOf (shownEntry records tgt tp.2) tgt tp.2 = k
+    then valOf (shownEntry records tgt tp.2) tp.2 else 0)).sum
+
+/-- **shown_rates_determine_figures**: under the fixed lookups the key and the value every posting is summed with
+    (`convKey`, `val28`, hence `valueSum` in `balance_conv_own_sum` / `register_conv_running_total`) are functions of
+    the metadata records of the report alone -/
+theorem shown_rates_determine_figures (es : List PriceEntry) (hwf : ∀ e ∈ es, e.base ≠ "") (txns : List Txn)
+    (tgt : String) (lk : PriceLookup) (hlk : lk = .lastPrice ∨ ∃ g, lk = .givenTime g) :
+    (∀ tp, convKey (rcache lk tgt (loadDb es) txns) tgt tp
+        = keyOf (shownEntry (metadata (reportCtx lk (some tgt) (loadDb es) txns)) tgt tp.2) tgt tp.2) ∧
+    (∀ tp, val28 (rcache lk tgt (loadDb es) txns) tgt tp
+        = valOf (shownEntry (metadata (reportCtx lk (some tgt) (loadDb es) txns)) tgt tp.2) tp.2) ∧
+    (∀ l k, valueSum (rcache lk tgt (loadDb es) txns) tgt l k
+        = shownSum (metadata (reportCtx lk (some tgt) (loadDb es) txns)) tgt l k) := by
+  have h2 := (metadata_matches_applied es hwf txns tgt lk hlk).2.1
+  have hk : ∀ tp, convKey (rcache lk tgt (loadDb es) txns) tgt tp
+        = keyOf (shownEntry (metadata (reportCtx lk (some tgt) (loadDb es) txns)) tgt tp.2) tgt tp.2 := by
+    intro tp; unfold convKey; rw [h2 tp.1 tp.2]
+  have hv : ∀ tp, val28 (rcache lk tgt (loadDb es) txns) tgt tp
+        = valOf (shownEntry (metadata (reportCtx lk (some tgt) (loadDb es) txns)) tgt tp.2) tp.2 := by
+    intro tp; unfold val28; rw [h2 tp.1 tp.2]
+  refine ⟨hk, hv, ?_⟩
+  intro l k
+  unfold valueSum shownSum
+  congr 1
+  apply List.map_congr_left
+  intro tp _
+  rw [hk tp, hv tp]
+
+/-- **balance_report_rates**: the balance report under a fixed lookup: its metadata block and its figures come from
+    one context, and every listed own sum is Σ amount × (the rate the block shows for the posting's commodity) over
+    the postings with a shown rate + Σ amount over the others, keyed by (report commodity | own commodity, account):
+    the rates in the metadata block are exactly the ones multiplied in. -/
+theorem balance_report_rates (st : Settings) (sel : BalRow → Bool) (es : List PriceEntry)
+    (hes : ∀ e ∈ es, e.base ≠ "") (txns : List Txn) (tgt : String) (lk : PriceLookup)
+    (hlk : lk = .lastPrice ∨ ∃ g, lk = .givenTime g) (hwf : C02.PostsWF (postsOf txns)) (rep : PricedBalance)
+    (h : balanceReport st sel lk (some tgt) (loadDb es) txns = .ok rep) :
+    rep.records = metadata (reportCtx lk (some tgt) (loadDb es) txns) ∧
+    balanceConv st sel lk (some tgt) (loadDb es) txns = .ok rep.bal ∧
+    ∀ row ∈ rep.bal.rows, row.own.units * E28 = shownSum rep.records tgt (pairsOf txns) row.key := by
+  unfold balanceReport at h
+  obtain ⟨b, hb, rfl⟩ := (Outcome.map_ok _ _ _).mp h
+  refine ⟨rfl, hb, ?_⟩
+  intro row hrow
+  have hlk' : lk ≠ .none := by rcases hlk with rfl | ⟨g, rfl⟩ <;> simp
+  obtain ⟨cps, _, _, _, hrows⟩ := balance_conv_own_sum st sel (loadDb es) txns tgt lk hlk' hwf b hb
+  rw [(hrows row hrow).2.1]
+  exact (shown_rates_determine_figures es hes txns tgt lk hlk).2.2 _ _
+
+/-- the register and the balance-group reports print the metadata of the same context their figures use -/
+theorem report_records (st : Settings) (bsel : BalRow → Bool) (rsel : RegRow → Bool) (g : GroupBy)
+    (tz : Time.JournalTz) (lk : PriceLookup) (rc : Option String) (db : List PriceEntry) (txns : List Txn) :
+    (∀ rep, registerReport rsel lk rc db txns = .ok rep →
+      rep.records = metadata (reportCtx lk rc db txns) ∧ registerConv rsel lk rc db txns = .ok rep.entries) ∧
+    (∀ rep, balgrpReport st bsel g tz lk rc db txns = .ok rep →
+      rep.records = metadata (reportCtx lk rc db txns) ∧ balgrpConv st bsel g tz lk rc db txns = .ok rep.groups) := by
+  constructor
+  · intro rep h
+    unfold registerReport at h
+    obtain ⟨b, hb, rfl⟩ := (Outcome.map_ok _ _ _).mp h
+    exact ⟨rfl, hb⟩
+  · intro rep h
+    unfold balgrpReport at h
+    obtain ⟨b, hb, rfl⟩ := (Outcome.map_ok _ _ _).mp h
+    exact ⟨rfl, hb⟩
+
+/-! ## 6. no conversion: the reports are the unconverted ones -/
+
+theorem mapO_total {α β} (f : α → Outcome β) (g : α → β) (hf : ∀ a, f a = .ok (g a)) :
+    ∀ l : List α, mapO f l = .ok (l.map g) := by
+  intro l
+  induction l with
+  | nil => rfl
+  | cons a t ih => simp [mapO, hf a, ih]
+
+theorem convertPrices_noconv (ctx : Ctx) (hin : ctx.inCommodity = none) (t : Txn) :
+    convertPrices ctx t = .ok (t.posts.map unchanged) := by
+  unfold convertPrices; rw [hin]
+
+theorem convertedPosts_noconv (ctx : Ctx) (hin : ctx.inCommodity = none) (txns : List Txn) :
+    convertedPosts ctx txns = .ok (postsOf txns) := by
+  unfold convertedPosts convertedAll
+  rw [mapO_total _ (fun t => t.posts.map unchanged) (convertPrices_noconv ctx hin)]
+  simp only [Outcome.map, Outcome.ok.injEq]
+  unfold postsOf
+  induction txns with
+  | nil => rfl
+  | cons t ts ih =>
+    simp only [List.map_cons, List.flatten_cons, List.map_append, List.flatMap_cons, ih]
+    congr 1
+    simp [List.map_map, Function.comp_def, toBPost, unchanged]
+
+theorem zipItems_noconv (posts : List Posting) :
+    zipItems (posts.map unchanged) posts = posts.map (fun p => (⟨p, p.comm, p.amount, none⟩ : RItem)) := by
+  induction posts with
+  | nil => rfl
+  | cons p ps ih =>
+    simp only [zipItems, List.map_cons, List.zip_cons_cons] at ih ⊢
+    rw [ih]
+    rfl
+
+theorem convertedStream_noconv (ctx : Ctx) (hin : ctx.inCommodity = none) (txns : List Txn) :
+    convertedStream ctx txns = .ok (plainStream txns) := by
+  unfold convertedStream
+  rw [mapO_total _ (fun t => (t, noConv t))]
+  · rfl
+  · intro t
+    rw [convertPrices_noconv ctx hin]
+    simp [Outcome.map, zipItems_noconv, noConv]
+
+theorem groupBalancesConv_noconv (st : Settings) (sel : BalRow → Bool) (ctx : Ctx) (hin : ctx.inCommodity = none) :
+    ∀ cs : List (String × List Txn), groupBalancesConv st sel ctx cs = groupBalances st sel cs := by
+  intro cs
+  induction cs with
+  | nil => rfl
+  | cons c rest ih =>
+    obtain ⟨k, g⟩ := c
+    simp only [groupBalancesConv, groupBalances, balanceOfConv, convertedPosts_noconv ctx hin, Outcome.bind, ih]
+    cases fromIter st sel (postsOf g) with
+    | err => rfl
+    | undef => rfl
+    | ok b => cases groupBalances st sel rest <;> rfl
+
+theorem makeCtx_noconv (lk : PriceLookup) (rc : Option String) (db : List PriceEntry) (txns : List Txn)
+    (h : lk = .none ∨ rc = none) : makeCtx lk txns rc db = Ctx.default := by
+  rcases h with rfl | rfl
+  · cases rc <;> rfl
+  · rfl
+
+/-- **no_conversion_reports**: with lookup `none` or without a report commodity the three reports are exactly the
+    unconverted ones of C02 / C03 / C13 (same rows, running totals, groups, outcome), and the metadata block is empty -/
+theorem no_conversion_reports (st : Settings) (bsel : BalRow → Bool) (rsel : RegRow → Bool) (g : GroupBy)
+    (tz : Time.JournalTz) (lk : PriceLookup) (rc : Option String) (db : List PriceEntry) (txns : List Txn)
+    (h : lk = .none ∨ rc = none) :
+    balanceConv st bsel lk rc db txns = fromIter st bsel (postsOf txns) ∧
+    registerConv rsel lk rc db txns = register rsel txns ∧
+    balgrpConv st bsel g tz lk rc db txns = balanceGroups st bsel g tz txns ∧
+    metadata (reportCtx lk rc db txns) = [] := by
+  have hctx : reportCtx lk rc db txns = Ctx.default := makeCtx_noconv lk rc db txns h
+  have hin : (reportCtx lk rc db txns).inCommodity = none := by rw [hctx]; rfl
+  refine ⟨?_, ?_, ?_, ?_⟩
+  · simp only [balanceConv, balanceOfConv, convertedPosts_noconv _ hin, Outcome.bind]
+  · simp only [registerConv, convertedStream_noconv _ hin, Outcome.bind, register]
+  · simp only [balgrpConv, balanceGroups, balgrpConvBy, balanceGroupsBy, groupBalancesConv_noconv st bsel _ hin]
+  · rw [hctx]; rfl
+
 end C07b
 end Tackler
